@@ -65,7 +65,7 @@ impl<'a, IntT: for<'b> UInt<'b>> SplitKmer<'a, IntT> {
     #[inline(always)]
     fn valid_qual(idx: usize, qual: Option<&'a [u8]>, min_qual: u8) -> bool {
         match qual {
-            Some(qual_seq) => (qual_seq[idx] - 33) > min_qual, // ASCII encoding starts from b'!' = 33
+            Some(qual_seq) => (qual_seq[idx] - 33) >= min_qual, // ASCII encoding starts from b'!' = 33
             None => true,
         }
     }
